@@ -535,6 +535,10 @@ func (pf Producer[T]) GenerateParallel(
 						return zero, ErrIteratorSkip
 					}
 
+					// a failure (not the end of the input)
+					// stops the other workers as well.
+					ft.WhenCall(!errors.Is(err, io.EOF), cancel)
+
 					return zero, io.EOF
 				}
 				return value, nil
